@@ -353,7 +353,8 @@ def run(rep, tier):
     rep.rule('R15.9', 'the empty value and the bare atom have a reader: what toJSON writes for an empty Data (null) is mapped back to an empty Data by fromJSON, and a text that toJSON writes for a top-level atom is accepted by fromJSON')
     tj = fb.fn('uscxml::Data::toJSON', required=False) or next((f_ for f_ in fb.funcs.values() if f_.q.endswith('Data::toJSON')), None)
     writes_null = tj is not None and any(x['k'] == 'StringLiteral' and x.get('str') == 'null' for x in tj.walk())
-    reads_null = any(x['k'] == 'StringLiteral' and x.get('str') == 'null' for x in fj.walk())
+    # the word is mapped back: an equality test of the token with "null" (a mere mention, e.g. in the list of literals that stay INTERPRETED, maps nothing)
+    reads_null = any(x['k'] in ('CXXOperatorCallExpr', 'BinaryOperator') and x.get('op') == '==' and any(y['k'] == 'StringLiteral' and y.get('str') == 'null' for y in sub(x)) for x in fj.walk())
     rep.check(reads_null or not writes_null, 'R15.9', 'fromJSON|null', fj.where(), 'toJSON writes an empty Data as null: %s; fromJSON maps the word null back to an empty Data: %s%s' % (
         writes_null, reads_null, '' if reads_null or not writes_null else ' -- {"list": <empty>} comes back with list.atom == "null" and compares unequal; an Event without payload comes back with data "null"'))
     early = [n for n in fj.walk() if n['k'] == 'IfStmt' and (any(x['k'] == 'CharacterLiteral' and x.get('int') in (ord('{'), ord('[')) for x in sub(n['c'][0])) or any(
@@ -363,6 +364,7 @@ def run(rep, tier):
 
     # ---- R15.10 the tree built from arbitrary text has bounded depth
     nesting_bound(rep, fb, 'R15.10')
+    payload_atoms_are_data(rep, fb, 'R15.11')
 
 
 def nesting_bound(rep, fb, rule='R15.10'):
@@ -394,3 +396,24 @@ def nesting_bound(rep, fb, rule='R15.10'):
                 ok = True
         rep.check(ok, rule, 'fromJSON|nesting bound', locstr(n), 'an open container is pushed %s' % (
             'only below a constant nesting depth' if ok else 'WITHOUT any bound on the nesting: 200000 `[` followed by 200000 `]` parse, and the recursive destructor of the result overflows the stack (SIGSEGV)'))
+
+
+def payload_atoms_are_data(rep, fb, rule='R15.11'):
+    """a token without quotes is INTERPRETED (a datamodel evaluates it) only if it is a JSON literal (C15 R15.11, shared with C16 R16.12)"""
+    rep.rule(rule, 'a parsed text is a value, not a program: Data::fromJSON leaves a token without quotes typed INTERPRETED - which the datamodels evaluate - only if it is true, false, null or a number; any other run of characters (jsmn is not strict) becomes VERBATIM text')
+    fj = fb.fn('uscxml::Data::fromJSON')
+    verb = []
+    for n in fj.walk():
+        if n['k'] == 'BinaryOperator' and n.get('op') == '=' and any(y['k'] == 'MemberExpr' and y.get('ref', {}).get('name') == 'type' for y in sub(n['c'][0])) and any(
+                y['k'] == 'DeclRefExpr' and y.get('ref', {}).get('name') == 'VERBATIM' for y in sub(n['c'][1])):
+            verb.append(n)
+    rep.minimum(rule, len(verb), 1, 'assignments of VERBATIM in Data::fromJSON')
+    guarded = []
+    for n in verb:
+        for a in fj.ancestors(n):
+            if a['k'] == 'IfStmt':
+                lits = {y.get('str') for y in sub(a['c'][0]) if y['k'] == 'StringLiteral'}
+                if {'true', 'false'} <= lits:
+                    guarded.append(n)
+    rep.check(bool(guarded), rule, 'fromJSON|primitive tokens', locstr(guarded[0]) if guarded else fj.where(), 'a token without quotes %s' % (
+        'is text unless it is one of the JSON literals' if guarded else 'keeps the type INTERPRETED whatever it is: {"a":os.exit(42)} posted to a session with the Lua datamodel is evaluated while the event is dequeued'))
